@@ -227,6 +227,12 @@ def _(w):
     return impl.URL(BN).with_path(w)
 
 
+@route("with_path_scheme_noauth", "mod", _one("path", "decoded", _rooted, has_authority=False))
+def _(w):
+    # a scheme that supports relative resolution, but no authority: nothing may be normalised away
+    return impl.URL("file:///d/e?q=1#f").with_path(w)
+
+
 @route("with_path_keep", "mod", _one("path", "decoded", _rooted, has_authority=True))
 def _(w):
     return impl.URL(BA).with_path(w, keep_query=True, keep_fragment=True)
